@@ -208,7 +208,7 @@ def mark_acked(interp):
 
 
 # ---------------------------------------------------------------------------
-async def probe_crash_state(world, node, expect_before, expect_after, violate, count, all_states=None):
+async def probe_crash_state(world, node, expect_before, expect_after, violate, count, all_states=None, seen=None):
     all_states = all_states or {}
     """Restarted server on a crash state: compare with the acknowledged model."""
     obs = ImapSession(world, "obs", "10.0.0.9")
@@ -254,6 +254,8 @@ async def probe_crash_state(world, node, expect_before, expect_after, violate, c
                 if "UID" in it:
                     got.append((int(it["UID"]), corpus.tok_of(body), norm_flags(it.get("FLAGS", []))))
         await obs.command("UNSELECT")
+        if seen is not None:
+            seen[name] = (uvv, [(u_, t_) for u_, t_, _ in got])
         B = expect_before.get(name)
         A = expect_after.get(name)
         if B is None and A is None:
@@ -391,10 +393,37 @@ def check_snapshot(snap, states, program, opts, idx, down_delivery=False):
         if not ok:
             violate("restart_failed", error=(node.start_error or "")[:300])
             return
-        await probe_crash_state(world, node, before or {}, after or {}, violate, count, all_states=states)
+        first = {}
+        await probe_crash_state(world, node, before or {}, after or {}, violate, count, all_states=states, seen=first)
         node.run_task.cancel()
         await asyncio.wait({node.run_task}, timeout=20)
         await node._exit()
+        if out:
+            return
+        # what the restarted server has shown (UIDs of its own choosing included) is revealed now: an orderly restart
+        # later on must show the same (UIDVALIDITY, UID) -> message pairs
+        node2 = UserNode(world, maildir)
+        ok2 = await node2.start(timeout=900.0)
+        count("c11_second_restart")
+        if not ok2:
+            violate("restart_failed", error=(node2.start_error or "")[:300], second_restart=True)
+            return
+        second = {}
+        await probe_crash_state(world, node2, {}, {}, violate, count, all_states={}, seen=second)
+        for name, (uvv1, msgs1) in sorted(first.items()):
+            if name not in second:
+                continue
+            uvv2, msgs2 = second[name]
+            if uvv1 is None or uvv1 != uvv2:
+                continue
+            m1 = {u: t for u, t in msgs1 if t is not None}
+            for u, t in msgs2:
+                if t is not None and u in m1 and m1[u] != t:
+                    violate("uid_rebound_after_crash", mailbox=name, uid=u, was=m1[u], now=t, second_restart=True)
+                    break
+        node2.run_task.cancel()
+        await asyncio.wait({node2.run_task}, timeout=20)
+        await node2._exit()
 
     loop = env.loop
     try:
